@@ -184,6 +184,20 @@ CLAIMED = {
               "macrobody, unknown mnemonics) is injected at random applicable cards of valid generated decks; the run must "
               "end with a diagnostic exception class. Fault classes not carried by a theorem are fault-enumeration only."),
         design_ref='§8 C17'),
+    'C18': dict(
+        category='partial',
+        technique='Lean 4 proof (permutation invariance of the sorting writers on the model) + model↔code correspondence of VolumeT4.__str__ + replay under different hash seeds and conversion histories',
+        text=("Partial. The Lean model of the converter is a pure function of the deck, so model-level determinism "
+              "holds by construction; what is proved is the part of the property that is logic: wherever a Python set "
+              "reaches the output, the writers sort, so the text is independent of the set's enumeration order "
+              "(sort_order_independent, volume_line_order_independent, surface_order_independent, for lists of any "
+              "length); the VolumeT4.__str__ model is compared with the code under shuffled insertion orders. What no "
+              "executable model can exhibit — CPython's set iteration under different hash seeds, module-level state "
+              "surviving between conversions, the input file being written to — is probed, not proved: every "
+              "generated deck is converted in fresh interpreters under PYTHONHASHSEED 0/1/4242/random and, in one "
+              "interpreter, before and after 2–4 other conversions (one failing); outputs must be byte-identical "
+              "apart from the header and the input file unchanged."),
+        design_ref='§8 C18'),
 }
 
 NOT_YET = "check under construction (not yet registered)"
